@@ -76,8 +76,9 @@ def arr_eq(a, b, rtol=1e-9, atol=1e-9):
         return bool(np.array_equal(a, b))
     with np.errstate(all="ignore"):
         both_inf = np.isinf(a) & np.isinf(b) & (np.sign(a.real) == np.sign(b.real))
+        both_nan = np.isnan(a) & np.isnan(b)
         ok = np.abs(a - b) <= atol + rtol * np.maximum(np.abs(a), np.abs(b))
-    return bool(np.all(ok | both_inf))
+    return bool(np.all(ok | both_inf | both_nan))
 
 
 def angle_eq_mod_pi(a, b, tol=1e-9):
